@@ -144,6 +144,42 @@ CLAIMED = {
              "a mask that drops a referenced vertex is modelled as the code behaves (witness theorem) and excluded "
              "from the statement (no surviving triangle).",
         technique="Lean 4 proof over hand-written executable model + differential correspondence (line protocol)"),
+    "C10": dict(
+        category="proof", design_ref="DESIGN.md 5 C10",
+        text="Lean 4 theorems over any linearly ordered field: the per-node corner computed by bounds_corners "
+             "(min/max of the rotated points, translation added afterwards) is the exact corner of the placed copy, "
+             "`lower`/`upper` are exact bounds (bound + attained), the bounds of the union of all placed copies is "
+             "the fold over the per-node corners, uniform scaling multiplies every world placement by s, a base-frame "
+             "transform moves every placed point through M, and an instance placed with linear part L contributes "
+             "det L times its geometry's volume up to cancelling edge terms (what Scene.volume sums after the "
+             "repair). World transforms are the path products of C09. Tied to the code by a differential run on "
+             "random instanced forests with float-exact rigid / similarity edges: bounds, extents, centroid, area, "
+             "volume, triangles, dump / to_mesh, convex hull containment against explicit placement read straight "
+             "from node data, interleaved graph / geometry edits, delete + re-add, copy, scaled, rezero, "
+             "apply_transform, +, append_scenes of >=3 scenes sharing node names, subscene, convert_units, and "
+             "source-unchanged checks.",
+        note="Trusted: Lean kernel (+propext/Classical.choice/Quot.sound), C09 for world transforms, float64 on the "
+             "exact matrix family. Partial: the transformer methods are checked by correspondence only. Known "
+             "findings: per-axis scaled() under rotated nodes; subscene drops the root node's own instance. One "
+             "defect repaired (area / volume ignored instance scale).",
+        technique="Lean 4 proof (order folds + affine identities) + differential correspondence"),
+    "C17": dict(
+        category="proof", design_ref="DESIGN.md 5 C17",
+        text="Lean 4 theorems over a heap of mutable cells: a sound disjointness checker; the frame theorem (if the "
+             "writable cells reachable from two objects are disjoint, any sequence of edits through one leaves "
+             "everything the other reports unchanged, now and for values computed later), its symmetric form, the "
+             "copy specification (fresh cell per reachable cell with equal contents => equal observations, disjoint, "
+             "original untouched) and a witness that one shared cell leaks. The real object graphs of original and "
+             "copy (numpy buffers by memory, dicts / lists by identity, through __dict__ / slots) of 16 kinds of "
+             "geometry, copied by .copy() / copy.copy / copy.deepcopy / include_cache in states with values computed, "
+             "edited in place or painted right before the copy, are walked and shipped to the Lean checker; "
+             "faithfulness is compared observable by observable and 14 edit classes are applied to either side "
+             "with a re-read of the other.",
+        note="Trusted: Lean kernel (+propext/Classical.choice/Quot.sound), the Python object-graph walker (what "
+             "counts as reachable mutable state; cached derived values are results, not state), C-level state of "
+             "rtree/embree not walked. Known finding: copy.copy of non-Trimesh classes is shallow. Five defects "
+             "repaired (Primitive.copy, Trimesh.copy attributes, Scene.copy metadata + deepcopy, Path.copy cache).",
+        technique="Lean 4 proof (frame theorem + verified checker applied to walked object graphs) + edit-and-reread correspondence"),
     "C13": dict(
         category="proof", design_ref="DESIGN.md 5 C13",
         text="Lean 4 theorems for every sequence and every count width m>=1 over an executable model of "
